@@ -420,6 +420,8 @@ TIES = {
             # the raster builder stores through add_path only (its loop: C15)
             ('SrcRi.v', ['PyPrelude', 'PgmState', 'NpState', 'SrcUf', 'EquivUf', 'RiState', 'SrcRi', 'EquivRi'], 'EquivRi')],
     'C11': ('SrcUf.v', ['PyPrelude', 'PgmState', 'NpState', 'SrcUf', 'EquivUf'], 'EquivUf'),
+    'C02': ('SrcTp.v', ['PyPrelude', 'PgmState', 'TpState', 'SrcTp', 'EquivTp'], 'EquivTp'),
+    'C17': ('SrcTp.v', ['PyPrelude', 'PgmState', 'TpState', 'SrcTp', 'EquivTp'], 'EquivTp'),
     'C04': ('SrcLb.v', ['PyPrelude', 'PgmState', 'LbState', 'SrcLb', 'EquivLb'], 'EquivLb'),
     'C14': [('SrcMk.v', ['PyPrelude', 'PgmState', 'MkState', 'SrcMk', 'EquivMk'], 'EquivMk'),
             ('SrcLb.v', ['PyPrelude', 'PgmState', 'LbState', 'SrcLb', 'EquivLb'], 'EquivLb')],
